@@ -136,8 +136,56 @@ fn cell<R: RoleType>(pkt_v5: bool, role_ok: bool, rule: u8, own_id: bool, id: u1
 '''
 
 
+TYPES = {
+    'v311_connect': 'v3_1_1::Connect', 'v311_connack': 'v3_1_1::Connack', 'v311_publish_q0': 'v3_1_1::GenericPublish<u16>',
+    'v311_puback': 'v3_1_1::GenericPuback<u16>', 'v311_pubrec': 'v3_1_1::GenericPubrec<u16>', 'v311_pubrel': 'v3_1_1::GenericPubrel<u16>',
+    'v311_pubcomp': 'v3_1_1::GenericPubcomp<u16>', 'v311_subscribe': 'v3_1_1::GenericSubscribe<u16>', 'v311_suback': 'v3_1_1::GenericSuback<u16>',
+    'v311_unsubscribe': 'v3_1_1::GenericUnsubscribe<u16>', 'v311_unsuback': 'v3_1_1::GenericUnsuback<u16>', 'v311_pingreq': 'v3_1_1::Pingreq',
+    'v311_pingresp': 'v3_1_1::Pingresp', 'v311_disconnect': 'v3_1_1::Disconnect',
+    'v5_connect': 'v5_0::Connect', 'v5_connack': 'v5_0::Connack', 'v5_publish_q0': 'v5_0::GenericPublish<u16>', 'v5_puback': 'v5_0::GenericPuback<u16>',
+    'v5_pubrec': 'v5_0::GenericPubrec<u16>', 'v5_pubrel': 'v5_0::GenericPubrel<u16>', 'v5_pubcomp': 'v5_0::GenericPubcomp<u16>',
+    'v5_subscribe': 'v5_0::GenericSubscribe<u16>', 'v5_suback': 'v5_0::GenericSuback<u16>', 'v5_unsubscribe': 'v5_0::GenericUnsubscribe<u16>',
+    'v5_unsuback': 'v5_0::GenericUnsuback<u16>', 'v5_pingreq': 'v5_0::Pingreq', 'v5_pingresp': 'v5_0::Pingresp', 'v5_disconnect': 'v5_0::Disconnect',
+    'v5_auth': 'v5_0::Auth',
+}
+
+CONST_HEAD = """
+// ---- compile-time-checked send: which packet types implement Sendable<Role, u16>
+struct Probe<T, R>(core::marker::PhantomData<(T, R)>);
+trait NotSendable {
+    const SENDABLE: bool = false;
+}
+impl<T, R> NotSendable for Probe<T, R> {}
+impl<T, R> Probe<T, R>
+where
+    R: RoleType,
+    T: crate::mqtt::connection::sendable::Sendable<R, u16>,
+{
+    const SENDABLE: bool = true;
+}
+
+#[kani::proof]
+fn c11_const_table() {
+    let x: u8 = kani::any();
+    kani::cover!(x == 0, "reachable");
+"""
+
+
+def const_table():
+    lines = [CONST_HEAD]
+    for kind, v5, ctor, rrule, srule, own in KINDS:
+        if kind not in TYPES:
+            continue
+        t = TYPES[kind]
+        for rname, rty in (('client', 'role::Client'), ('server', 'role::Server'), ('any', 'role::Any')):
+            ok = rrule == 'any' or rname == 'any' or rname == rrule
+            lines.append('    assert!(<Probe<%s, %s>>::SENDABLE == %s, "[C11] compile-time-checked send accepts %s for role %s exactly when the run-time check does");\n' % (t, rty, 'true' if ok else 'false', kind, rname))
+    lines.append('}\n')
+    return ''.join(lines)
+
+
 def main():
-    out = [HEAD]
+    out = [HEAD, const_table()]
     names = []
     for kind, v5, ctor, rrule, srule, own in KINDS:
         rule = {'disc': 0, 'conning': 1, 'auth': 2, 'conn': 3, 'pubq': 4, 'pubrel': 5}[srule]
